@@ -101,6 +101,7 @@ type Exec struct {
 	stepTO  time.Duration
 
 	stepReqs, stepMuts int
+	stepEff            int
 	saved              map[string][]string // labelled results of version steps
 }
 
@@ -380,6 +381,7 @@ func (e *Exec) emit(ev string, s Step, extra map[string]interface{}) {
 			// storage requests / mutations issued by this client during this step
 			m["dr"] = e.client(c).fc.totReqs() - e.stepReqs
 			m["dm"] = e.client(c).fc.totMuts() - e.stepMuts
+			m["dme"] = e.client(c).fc.totEff() - e.stepEff
 		}
 	}
 	for _, k := range []string{"fix", "tag", "phase", "same", "same_as_begin"} {
@@ -850,6 +852,7 @@ func (e *Exec) runStep(s Step) {
 	if c := s.str("c"); c != "" {
 		e.stepReqs = e.client(c).fc.totReqs()
 		e.stepMuts = e.client(c).fc.totMuts()
+		e.stepEff = e.client(c).fc.totEff()
 	}
 	switch s.str("op") {
 	case "open":
